@@ -15,7 +15,8 @@ func New() *Namespaced {
 // Namespaced is a register able to keep track of elements stored
 // under namespaces and keys
 type Namespaced struct {
-	data *Untyped
+	data  *Untyped
+	mutex sync.Mutex
 }
 
 // Get returns the Untyped register stored under the namespace
@@ -30,6 +31,8 @@ func (n *Namespaced) Get(namespace string) (*Untyped, bool) {
 
 // Register stores v at the key name of the Untyped register named namespace
 func (n *Namespaced) Register(namespace, name string, v interface{}) {
+	n.mutex.Lock()
+	defer n.mutex.Unlock()
 	if register, ok := n.Get(namespace); ok {
 		register.Register(name, v)
 		return
@@ -43,6 +46,8 @@ func (n *Namespaced) Register(namespace, name string, v interface{}) {
 // AddNamespace adds a new, empty Untyped register under the give namespace (if
 // it did not exist)
 func (n *Namespaced) AddNamespace(namespace string) {
+	n.mutex.Lock()
+	defer n.mutex.Unlock()
 	if _, ok := n.Get(namespace); ok {
 		return
 	}
